@@ -332,4 +332,61 @@ theorem hydLoop_entry (m : MolOut) : ∀ (as : List (Nat × Nat × Option Nat ×
             obtain ⟨c', r', h1, h2, h3⟩ := hydLoop_entry m tl rest hrest j a hi
             exact ⟨c', r', h1, h2, by simpa using h3⟩
 
+/-! ## the keyword arguments acting inside the hydrogen loop -/
+
+/-- with the defaults of `smiles()` the option-aware branch is the plain one -/
+theorem assignOpt_default (calcF : Ctx → Option Nat) (checkF : Ctx → Nat → Bool) (c : Ctx) (hyd : Option Nat) :
+    assignOpt {} calcF checkF c hyd = assignWith calcF checkF c hyd := by
+  unfold assignOpt assignOptCore assignWith
+  cases hyd with
+  | none => rfl
+  | some h =>
+    simp only [Bool.false_eq_true, if_false, Bool.false_and, Bool.not_true]
+    cases calcF c with
+    | none => dsimp only; repeat' split
+              all_goals rfl
+    | some k => dsimp only; repeat' split
+                all_goals rfl
+
+theorem assignHOpt_default (c : Ctx) (hyd : Option Nat) : assignHOpt {} c hyd = assignH c hyd := by
+  unfold assignHOpt assignH
+  congr 1
+  funext t
+  exact assignOpt_default _ _ c hyd
+
+theorem hydLoopOpt_default (m : MolOut) : ∀ as, hydLoopOpt {} m as = hydLoop m as
+  | [] => rfl
+  | a :: tl => by
+    unfold hydLoopOpt hydLoop
+    rw [hydLoopOpt_default m tl]
+    cases hCtx m a with
+    | none => rfl
+    | some c => simp only [assignHOpt_default]
+
+/-- `keep_implicit=True`: a bracket atom keeps exactly the written count and its radical mark, whatever the valence
+    model says -/
+theorem assignOpt_keepImplicit (o : HOpts) (ho : o.keepImplicit = true) (calcF : Ctx → Option Nat)
+    (checkF : Ctx → Nat → Bool) (c : Ctx) (h : Nat) : assignOpt o calcF checkF c (some h) = (some h, c.radical) := by
+  unfold assignOpt assignOptCore
+  simp [ho]
+
+/-- `ignore_carbon_radicals=True`: a carbon that is not named in the CXSMILES block never ends as a radical — a guessed
+    carbon radical is replaced by one more hydrogen -/
+theorem assignOpt_ignoreCarbonRadicals (o : HOpts) (ho : o.ignoreCarbonRadicals = true) (calcF : Ctx → Option Nat)
+    (checkF : Ctx → Nat → Bool) (c : Ctx) (hyd : Option Nat) (hz : c.z = 6) (hr : c.radical = false) :
+    (assignOpt o calcF checkF c hyd).2 = false := by
+  unfold assignOpt assignOptCore
+  simp only [ho, hz, hr, Bool.true_and, beq_self_eq_true, Bool.and_true, Bool.not_false, if_true]
+  cases hyd with
+  | none => simp
+  | some h =>
+    dsimp only
+    split
+    · simp
+    · cases calcF c with
+      | none => dsimp only; repeat' split
+                all_goals first | (simp; done) | simp_all
+      | some k => dsimp only; repeat' split
+                  all_goals first | (simp; done) | simp_all
+
 end ChythonModel.Proofs.C03
